@@ -949,6 +949,45 @@ def adjacency_rule(ctx):
     return obs
 
 
+def rawtext_end_rule(ctx):
+    """C02.userjs/raw-text-end: the body of an inline script ends at the first `</wxs` that is not the beginning of a longer tag
+    name - judged with the continuation class of the tag-name scanner (`Ident::is_following_char`), the class the end-tag parser
+    that follows will use. A narrower class cuts a valid script inside a string such as "</wxs-x>"."""
+    ob = ctx.ob
+    tc = ctx.tc
+    obs = []
+    for f in tc.fns:
+        if not f.body or f.module[:1] != ["parse"]:
+            continue
+        pm = None
+        for n in sir.walk(f.body, into_closures=True):
+            if not (n.get("k") == "mcall" and n["m"] in ("skip_until_before", "skip_until_after") and n["args"]):
+                continue
+            a0 = sir.strip_ref(n["args"][0])
+            if not (a0.get("k") == "lit" and isinstance(a0.get("v"), str) and a0["v"].startswith("</") and len(a0["v"]) > 2):
+                continue
+            pm = pm or sir.parent_map(f.body)
+            cur = n
+            while id(cur) in pm and cur.get("k") not in ("loop", "while", "for"):
+                cur = pm[id(cur)]
+            if cur.get("k") not in ("loop", "while", "for"):
+                obs.append(ob("C02.userjs/raw-text-end/%s" % a0["v"], False, ctx.where(f), "the scan for `%s` is not repeated: the first occurrence ends the script even inside a longer name" % a0["v"]))
+                continue
+            preds = set()
+            for x in sir.walk(cur, into_closures=True):
+                if x.get("k") == "call" and x["f"].get("k") == "path" and re.match(r"is_\w*char$", x["f"]["segs"][-1]):
+                    preds.add(x["f"]["segs"][-1])
+                if x.get("k") == "mcall" and re.match(r"is_(ascii_)?(alpha|alphanumeric|whitespace)", x["m"]):
+                    preds.add(x["m"])
+            ok = preds == {"is_following_char"}
+            obs.append(ob("C02.userjs/raw-text-end/%s" % a0["v"], ok if preds else None, ctx.where(f),
+                          "after `%s` the look-ahead asks %s" % (a0["v"], sorted(preds)) + ("" if ok else ": the tag-name scanner continues a name on `Ident::is_following_char`"),
+                          witness=None if ok or not preds else '<wxs module="m">var s = "</wxs-x>"; exports.s = s</wxs> : the script is cut inside the string literal'))
+    if not obs:
+        obs.append(ob("C02.userjs/raw-text-end/anchor", False, "parse/tag.rs", "no raw-text scan (`skip_until_before(\"</..\")`) found in the parser"))
+    return obs
+
+
 def userjs_rule(ctx, sites):
     """C02.userjs: user JavaScript reaches the output only inside a function body followed by a line terminator, or through
     custom_stmt_str (which separates statements); never by raw concatenation."""
@@ -1085,6 +1124,7 @@ def run(ctx):
     obs, sites = holes_rule(ctx)
     obs += adjacency_rule(ctx)
     obs += userjs_rule(ctx, sites)
+    obs += rawtext_end_rule(ctx)
     from rules.c12 import find_escaper, check_escaper
     ef = find_escaper(ctx.tc)
     if ef is not None:
@@ -1113,4 +1153,7 @@ def run(ctx):
     # an empty sub-tree is not pasted as `()` (shared with C06.runtime/tree-tokens/written-asked)
     from rules.c06 import wave9_rules as c06_w9
     obs += relabel(c06_w9(ctx), "C06.runtime/tree-tokens/written-asked", "C02.paths/written-asked")
+    # wave 11: `??` written natively next to `||` / `&&` is an early error of ECMAScript (shared with C03.prec/gen)
+    from rules.c03 import run as c03_run
+    obs += relabel(c03_run(ctx), "C03.prec/gen/NullishCoalescing", "C02.syntax/nullish-mixing")
     return obs
